@@ -63,6 +63,7 @@ type tap struct {
 	delay    time.Duration //
 	release  chan struct{} // closed by the harness to end a stall that would last for ever
 	rekey    bool          // first Recv answers -404; encrypted frames are swallowed
+	pre404   bool          // the disturbed Recv first answers a transport-level -404; the next call is the disturbed one
 	onTarget func()        // called when the disturbed call starts (arms the "near" caller deadline)
 
 	mu      sync.Mutex
@@ -92,7 +93,10 @@ func (t *tap) snapshot() []opRec {
 
 // disturb applies the stall/delay for call i. done=true: return err without touching the pipe.
 func (t *tap) disturb(ctx context.Context, i int) (done bool, err error) {
-	if i != t.target {
+	t.mu.Lock()
+	target := t.target
+	t.mu.Unlock()
+	if i != target {
 		return false, nil
 	}
 	if t.onTarget != nil {
@@ -154,6 +158,15 @@ func (t *tap) Recv(ctx context.Context, b *bin.Buffer) (rerr error) {
 	}
 	i := t.begin(true)
 	defer t.finish(i, &rerr)
+	if t.pre404 && i == t.target {
+		// "auth key not found" for a frame of a discarded key, then silence: readUnencrypted skips
+		// the -404 and reads again
+		t.mu.Lock()
+		t.pre404 = false
+		t.target = i + 1
+		t.mu.Unlock()
+		return &codec.ProtocolErr{Code: codec.CodeAuthKeyNotFound}
+	}
 	if done, err := t.disturb(ctx, i); done {
 		return err
 	}
@@ -166,7 +179,7 @@ type tcase struct {
 	level    string // exchange | conn | conn-pfs | conn-rekey
 	temp     bool   // exchange level: temporary-key mode
 	op       int    // transport call index to disturb
-	action   string // stall | slow (answers in time) | late (answers after the timeout)
+	action   string // stall | slow (answers in time) | late (answers after the timeout) | stall404 (a -404 frame, then silence)
 	timeout  time.Duration
 	deadline string // none | far | near (exchange level only: the caller's context)
 	seed     uint64
@@ -237,7 +250,8 @@ func runCase(tc tcase) outcome {
 	priv := exchange.PrivateKey{RSA: testutil.RSAPrivateKey()}
 	rng := hc.NewRNG(tc.seed)
 	client, server := transport.Intermediate.Pipe()
-	tp := &tap{inner: client, target: tc.op, stall: tc.action == "stall", delay: tc.delay(), release: make(chan struct{}), rekey: tc.level == "conn-rekey"}
+	tp := &tap{inner: client, target: tc.op, stall: tc.action == "stall" || tc.action == "stall404", pre404: tc.action == "stall404",
+		delay: tc.delay(), release: make(chan struct{}), rekey: tc.level == "conn-rekey"}
 	srvCtx, srvCancel := context.WithCancel(context.Background())
 	defer srvCancel()
 	srng := rng.Fork()
@@ -347,7 +361,11 @@ func runCase(tc tcase) outcome {
 				waitDone(done)
 				return o
 			}
-			if len(ops) > tc.op && tc.action != "slow" && time.Since(tp.t0) > ops[tc.op].start+tc.timeout+slack+300*time.Millisecond {
+			stalled := tc.op
+			if tc.action == "stall404" {
+				stalled++
+			}
+			if len(ops) > stalled && tc.action != "slow" && time.Since(tp.t0) > ops[stalled].start+tc.timeout+slack+300*time.Millisecond {
 				// still blocked well beyond timeout + slack: unbounded
 				o := finish(false, nil)
 				close(tp.release)
@@ -396,6 +414,13 @@ func genCases(c *hc.Ctx) []tcase {
 		cs = append(cs,
 			tcase{level: "exchange", temp: r.Bool(), op: op, action: "late", timeout: to(), deadline: hc.Pick(r, "none", "far"), seed: r.U64()},
 			tcase{level: "exchange", temp: r.Bool(), op: op, action: "slow", timeout: slowTO, deadline: hc.Pick(r, "none", "far"), seed: r.U64()})
+	}
+	// a peer that answers the ResPQ read with a transport-level -404 (which readUnencrypted skips)
+	// and then goes silent: the re-read must be bounded as well
+	for _, temp := range []bool{false, true} {
+		for _, dl := range []string{"none", "far"} {
+			cs = append(cs, tcase{level: "exchange", temp: temp, op: 1, action: "stall404", timeout: to(), deadline: dl, seed: r.U64()})
+		}
 	}
 	// through mtproto.Conn.Run: connect without PFS (6 calls), with PFS (permanent then temporary
 	// exchange: 12 calls), and re-keying from the read loop after a transport-level -404
@@ -475,8 +500,8 @@ type cmp struct{ input, impl, model string }
 // allowed real-time slack).
 func compare(c *hc.Ctx, tc tcase, o outcome, modelSteps []string) ([]cmp, error) {
 	var out []cmp
-	if len(o.ops) == 0 {
-		return nil, nil
+	if len(o.ops) == 0 || tc.action == "stall404" {
+		return nil, nil // the -404 skip loop has no counterpart in the step model: monitor only
 	}
 	if tc.action == "slow" && tc.level == "exchange" && o.returned && o.err == nil {
 		var obs, mod []string
@@ -666,9 +691,9 @@ func run(c *hc.Ctx) error {
 		}
 	}
 	c.Res.Exhaustive = c.Replay == ""
-	c.Res.Rule = "grid: exchange level = 6 transport calls × {permanent, temporary} × caller deadline {none, 120 s, inside the step} with a silent peer, + late (timeout + 3 s) and slow (300 ms, timeout 3 s) answers at each call; mtproto.Conn.Run level = connect without PFS (6 calls, dial timeout 60 s), with PFS (12 calls), re-keying after -404 (6 calls), silent peer at each call, + one slow run each; timeouts from {120,150,200,260} ms; non-trivial = the peer is silent or late at some call; distinct = distinct case line"
+	c.Res.Rule = "grid: exchange level = 6 transport calls × {permanent, temporary} × caller deadline {none, 120 s, inside the step} with a silent peer, + late (timeout + 3 s) and slow (300 ms, timeout 3 s) answers at each call, + a transport -404 followed by silence at the ResPQ read; mtproto.Conn.Run level = connect without PFS (6 calls, dial timeout 60 s), with PFS (12 calls), re-keying after -404 (6 calls), silent peer at each call, + one slow run each; timeouts from {120,150,200,260} ms; non-trivial = the peer is silent or late at some call; distinct = distinct case line"
 	c.PartialNote("real scheduler/timer latency is outside the model: a call counts as bounded when it returns within timeout + 5 s (the unbounded alternatives are ≥ 60 s or never); the model's predicted return time is compared with the same slack; a failing observation is repeated once before it is reported")
-	c.PartialNote("readUnencrypted re-arms the timeout for every transport-level -404 frame it skips; a peer that keeps sending -404 is not silent and is outside the property's quantifier")
+	c.PartialNote("readUnencrypted re-arms the timeout for every transport-level -404 frame it skips; a peer that keeps sending -404 is not silent and is outside the property's quantifier; one -404 followed by silence is exercised by the monitor only (the step model has no -404 frames)")
 	c.PartialNote("the stalling transport ends a call when its context ends (deadline or cancel); transport.connection honours deadlines only; the `near` caller deadline is a cancellation armed when the disturbed step starts")
 	sort.Strings(c.Res.Notes)
 	if noModel {
